@@ -970,6 +970,31 @@ example :
 section Round4Labeled
 -- (theorems of this package go between this line and the `end`)
 
+/-- a row of `Generated.indexGuardTable`: every index expression of the access has an atom `x >= 0` among the tests that dominate it -/
+def idxLowerGuarded (r : String × String × List String × List String × List (String × String × String)) : Bool :=
+  r.2.2.1.all fun x => r.2.2.2.2.any fun a => a.1 == "geZero" && a.2.1 == x
+
+/-- … and an atom `x < bound` -/
+def idxUpperGuarded (bound : String) (r : String × String × List String × List String × List (String × String × String)) : Bool :=
+  r.2.2.1.all fun x => r.2.2.2.2.any fun a => a.1 == "lt" && a.2.1 == x && a.2.2 == bound
+
+/-- **C11+C10 (labeled_sum / labeled_max / labeled_min: `labeled_foldl`) — the in-loop test is part of the tie.** The native guards of
+`py_labeled_*` (extracted by guards.py from the front of the entry point) cannot keep a DATA-dependent index inside its table; what
+does is the test inside the loop of `labeled_foldl`. `translator/allocs.py: extract_index_guards` extracts from the current source
+the tests that dominate the store `result[…]`: the row of `Generated.indexGuardTable` for `labeled_foldl` has, for its index
+expression, both `x >= 0` and `x < maxlabel` — and behind exactly that test (`C10_labeled_foldl_in_bounds`) the access is in range
+for EVERY label value (negative, e.g. a uint32/int64 label that wrapped to `INT_MIN` when narrowed to C int, or too large: skipped).
+A kernel that loses the lower-bound test (seeded change C11-r4m1) changes the generated row and this theorem no longer checks. -/
+theorem C11_labeled_fold_safe (maxi label : Int) :
+    ((Generated.indexGuardTable.find? fun r => r.1 == "_labeled.cpp" && r.2.1 == "labeled_foldl").map
+        fun r => idxLowerGuarded r && idxUpperGuarded "maxlabel" r) = some true ∧
+    ∀ a ∈ Mahotas.C10.foldlAccesses maxi label, 0 ≤ a.i ∧ a.i < a.size :=
+  ⟨by decide +kernel, C10_labeled_foldl_in_bounds maxi label⟩
+
+/-- the row a kernel without the lower-bound test would generate (what the seeded change produces) is rejected -/
+example : (idxLowerGuarded ("_labeled.cpp", "labeled_foldl", ["label"], ["*literator"], [("lt", "label", "maxlabel")])) = false ∧
+    Mahotas.C10.foldlAccesses 4 (-2147483648) = [] := by decide
+
 /-- **C11+C10 (slic).** If the guards of the wrapper `segmentation.slic` (as extracted) pass on an ndarray and integer `spacer`,
 `max_iters`, then (`C11_slic_guards_imply_pre`) the array is `(h, w, 3)`, `spacer ≥ 1`, a seed exists on both axes; hence
 (`C10_slic_first_iteration_covers`) the seeding loops place at least one centroid, all inside the image, and the windows of the first
@@ -1053,6 +1078,21 @@ end Round4Flood
 /-! ## Round 4 — Feat: compositions with the C10 theorems about feature kernels (`_zernike` znl, SURF `compute_dominant_angle`, `_texture`, `_convex` entry point, `_histogram` otsu, `_interpolate` remaining pieces) -/
 section Round4Feat
 -- (theorems of this package go between this line and the `end`)
+
+/-- **C11+C10 (cooccurence) — both matrix indices are tested before the access.** `++res.at(val, val2)` indexes the result by two pixel
+VALUES; the tests that dominate it in the current source (`Generated.indexGuardTable`, row `cooccurence`) contain `val >= 0` AND
+`val2 >= 0` (the negation of `if (val < 0 || val2 < 0) throw …`): a negative grey level — of the centre OR of the neighbour — raises
+before it is used as an index, and then (`C10_cooccurence_in_bounds`) for values up to the maximum the wrapper sized the matrix for
+both indices are inside it. A kernel that tests the centre only (seeded change C11-r4m2: a neighbour is used as an index before it
+has been the centre) changes the generated row and this theorem no longer checks. -/
+theorem C11_cooccurence_index_guarded (m0 m1 maxv v v2 : Int) (hv : v ≤ maxv) (hv2 : v2 ≤ maxv) (hm0 : maxv < m0) (hm1 : maxv < m1) :
+    ((Generated.indexGuardTable.find? fun r => r.1 == "_texture.cpp" && r.2.1 == "cooccurence").map
+        fun r => idxLowerGuarded r && decide (r.2.2.1.length = 2)) = some true ∧
+    ∀ a ∈ Mahotas.C10.coocAccesses m0 m1 v v2, 0 ≤ a.i ∧ a.i < a.size :=
+  ⟨by decide +kernel, C10_cooccurence_in_bounds m0 m1 maxv v v2 hv hv2 hm0 hm1⟩
+
+example : idxLowerGuarded ("_texture.cpp", "cooccurence", ["val", "val2"], ["*iter", "0"], [("geZero", "val", "")]) = false ∧
+    Mahotas.C10.coocAccesses 4 4 2 (-1073741824) = [] := by decide
 
 /-- **C11+C10 (otsu).** If the guards of the native `py_otsu` pass, the histogram is a C-contiguous `double` array, read through a
 raw pointer over `n = SIZE(histogram)` cells — and for every `n` and every outcome of the floating-point tests all accesses of
@@ -1193,8 +1233,8 @@ def entryCover : List EntryCover := [
   ⟨"_labeled.remove_regions", [``C10_remove_regions_in_bounds, ``C10_lower_bound_in_bounds], [], "bounds", ""⟩,
   ⟨"_labeled.borders", [``C10_filter_table_ok, ``C10_filter_iterator_refines, ``C10_alloc_fill_defined], [``C11_convolve_guards_imply_pre], "bounds", "filter iterator + stores at the pixel cursor; no model of its own"⟩,
   ⟨"_labeled.border", [``C10_filter_table_ok, ``C10_filter_iterator_refines, ``C10_alloc_fill_defined], [], "bounds", "filter iterator + stores at the pixel cursor; no model of its own"⟩,
-  ⟨"_labeled.labeled_sum", [``C10_labeled_foldl_in_bounds, ``C10_alloc_fill_defined], [], "bounds", "negative labels are skipped by the kernel (`C10_labeled_foldl_in_bounds`)"⟩,
-  ⟨"_labeled.labeled_max_min", [``C10_labeled_foldl_in_bounds, ``C10_alloc_fill_defined], [], "bounds", ""⟩,
+  ⟨"_labeled.labeled_sum", [``C10_labeled_foldl_in_bounds, ``C10_alloc_fill_defined], [``C11_labeled_fold_safe], "safe", "the in-loop test `label >= 0 && label < maxlabel` is extracted from the source (indexGuardTable)"⟩,
+  ⟨"_labeled.labeled_max_min", [``C10_labeled_foldl_in_bounds, ``C10_alloc_fill_defined], [``C11_labeled_fold_safe], "safe", ""⟩,
   ⟨"_labeled.slic", [``C10_slic_window_in_bounds, ``C10_slic_first_iteration_covers, ``C10_find_in_bounds], [``C11_slic_guards_imply_pre, ``C11_slic_seeds_nonempty_in_range, ``C11_slic_seed_fuel_sufficient, ``C11_slic_safe], "safe", "the stateful assignment fold, the connectivity post-pass (union-find over nlabels, priority queue) and its termination are not traced as a whole; float comparisons assumed finite (D2 < 10e20)"⟩,
   ⟨"_morph.subm", [``C10_pair_scan_in_bounds], [``C11_subm_safe], "safe", ""⟩,
   ⟨"_morph.erode", [``C10_filter_table_ok, ``C10_filter_iterator_refines, ``C10_fastbinary_in_bounds, ``C10_alloc_pixel_loop_defined], [``C11_morph_guards_imply_pre, ``C11_erode_dilate_safe], "safe", ""⟩,
@@ -1215,7 +1255,7 @@ def entryCover : List EntryCover := [
   ⟨"_surf.pyramid", [``C10_surf_pyramid_in_bounds, ``C10_surf_pyramid_guarded, ``C10_surf_pyramid_no_int_overflow], [``C11_surf_guards_imply_pre, ``C11_surf_pyramid_safe], "safe", ""⟩,
   ⟨"_surf.integral", [``C10_integral_in_bounds], [], "bounds", ""⟩,
   ⟨"_surf.sum_rect", [``C10_surf_sum_rect_in_bounds, ``C10_surf_sum_rect_entry_in_bounds], [], "bounds", "unconditional: every argument tuple is safe"⟩,
-  ⟨"_texture.cooccurence", [``C10_cooccurence_in_bounds, ``C10_cooccurence_assertion_off_by_one], [``C11_cooccurence_guards_imply_pre, ``C11_cooccurence_safe, ``C11_cooccurence_linked_safe], "safe", ""⟩,
+  ⟨"_texture.cooccurence", [``C10_cooccurence_in_bounds, ``C10_cooccurence_assertion_off_by_one], [``C11_cooccurence_guards_imply_pre, ``C11_cooccurence_safe, ``C11_cooccurence_linked_safe, ``C11_cooccurence_index_guarded], "safe", "the in-loop tests `val >= 0`, `val2 >= 0` are extracted from the source (indexGuardTable)"⟩,
   ⟨"_texture.compute_plus_minus", [``C10_compute_plus_minus_in_bounds, ``C10_alloc_fill_defined], [], "bounds", "the sizes 2*maxv / maxv come from haralick_features (Python)"⟩,
   ⟨"_zernike.znl", [``C10_znl_in_bounds, ``C10_znl_fact_in_bounds, ``C10_alloc_znl_gm_defined], [``C11_features_guards_imply_pre, ``C11_zernike_loop_pre, ``C11_znl_safe], "safe", "the three array sizes are equal by construction in zernike.py (links `other`)"⟩
 ]
@@ -1223,15 +1263,15 @@ def entryCover : List EntryCover := [
 /-- **C11/C10, coverage of the native entry points.** EVERY `py_*` entry point of the current sources (the 52 rows of
 `Generated.nativeGuardTable`) has a row in `entryCover`, every row names at least one theorem, and every theorem named exists
 (the names are checked when this file is elaborated). A NEW entry point that nobody has looked at makes this `decide` fail.
-The levels: 32 entry points reach a composed `C11_*_safe` corollary, 2 a `_partial` one, 5 have guards ⇒ precondition only, 13 a
+The levels: 34 entry points reach a composed `C11_*_safe` corollary, 2 a `_partial` one, 5 have guards ⇒ precondition only, 11 a
 C10 bounds theorem only; no entry point is left without an index model. -/
 theorem C11_native_entry_points_covered :
     Generated.nativeGuardTable.all (fun e => entryCover.any fun c => c.entry == e.1) = true ∧
     entryCover.all (fun c => !(c.c10.isEmpty && c.c11.isEmpty)) = true ∧
-    (entryCover.filter fun c => c.level == "safe").length = 32 ∧
+    (entryCover.filter fun c => c.level == "safe").length = 34 ∧
     (entryCover.filter fun c => c.level == "partial").length = 2 ∧
     (entryCover.filter fun c => c.level == "pre").length = 5 ∧
-    (entryCover.filter fun c => c.level == "bounds").length = 13 ∧
+    (entryCover.filter fun c => c.level == "bounds").length = 11 ∧
     (entryCover.filter fun c => c.c10.isEmpty).map (·.entry) = [] := by
   decide +kernel
 
